@@ -189,7 +189,11 @@ fn sched_worker(rx: Receiver<Cmd>, tx: Sender<Value>) {
                 let dv = (Decimal::new_raw(3, 18) / Decimal::TWO).coefficient();            // 1.5e-18: the `/` operator
                 // an exact quotient on the 256-bit division path: no mode may change it
                 let ex = (Decimal::new_raw(1_000_000_000_000_000_000_000, 0) / Decimal::new_raw(8, 0)).coefficient() - 125_000_000_000_000_000_000;
-                tx.send(json!([a, b, c, d, e2, f, g.parse::<i64>().unwrap_or(99), h, w as i64, dv, ex as i64])).unwrap();
+                // the "tiny" class: exact results far below one unit - 0 or one unit, decided by mode and sign only
+                let t1 = Decimal::new_raw(4, 3).div_rounded(3_i32, 2).coefficient();                          // 0.004 / 3 at 2 digits (integer divisor)
+                let t2 = Decimal::new_raw(-5, 2).div_rounded(Decimal::new_raw(7, 0), 1).coefficient();       // -0.05 / 7 at 1 digit (divisor-scaled branch)
+                let t3 = Decimal::new_raw(-4, 4).quantize(Decimal::new_raw(1, 2)).coefficient();              // -0.0004 in units of 0.01
+                tx.send(json!([a, b, c, d, e2, f, g.parse::<i64>().unwrap_or(99), h, w as i64, dv, ex as i64, t1 as i64, t2 as i64, t3 as i64])).unwrap();
             }
             Cmd::Spawn(crx, ctx) => {
                 children.push(std::thread::spawn(move || sched_worker(crx, ctx)));
